@@ -1,6 +1,8 @@
-(* C11: property theorems.  Statements only; every proof is `exact` of a lemma in Proofs/. *)
+(* C11 -- uses_storage_type never under-reports a storage the stream touches
+   Property theorems only: each proof is one application of a lemma proved in Proofs/, followed by Print Assumptions. *)
 From Coq Require Import ZArith List Bool.
 From CS Require SchedProofs.
+From CS Require Import Actions NAdvance Multistage Exec Sched RunFacts Projections BasicInv MultistageRun TLBridge.
 Import ListNotations.
 Open Scope Z_scope.
 
